@@ -177,6 +177,12 @@ func (ff *FuncFacts) rawRange(v ssa.Value, at *ssa.BasicBlock, depth int, tr Int
 	}
 	switch x := v.(type) {
 	case *ssa.Call:
+		if f := x.Call.StaticCallee(); f != nil && f.Blocks != nil && InModule(f) && depth < 4 {
+			// value-returning module callee: union of the ranges of its returns
+			if iv, ok := ff.P.returnRange(f, depth); ok && within(iv, tr) {
+				return iv
+			}
+		}
 		if b, ok := x.Call.Value.(*ssa.Builtin); ok && (b.Name() == "len" || b.Name() == "cap") {
 			// arrays / strings of known length
 			if arr, ok := x.Call.Args[0].Type().Underlying().(*types.Array); ok {
@@ -200,6 +206,9 @@ func (ff *FuncFacts) rawRange(v ssa.Value, at *ssa.BasicBlock, depth int, tr Int
 	case *ssa.ChangeType:
 		return ff.rangeOf(x.X, at, depth+1)
 	case *ssa.BinOp:
+		if iv, ok := ff.idiomBound[x]; ok {
+			return iv
+		}
 		a := ff.rangeOf(x.X, at, depth+1)
 		b := ff.rangeOf(x.Y, at, depth+1)
 		var r Interval
@@ -264,8 +273,25 @@ func (ff *FuncFacts) rawRange(v ssa.Value, at *ssa.BasicBlock, depth int, tr Int
 		if r != nil && within(*r, tr) {
 			return *r
 		}
+	case *ssa.Parameter:
+		if iv, ok := ff.P.paramRange(x); ok && within(iv, tr) {
+			return iv
+		}
+	case *ssa.Field:
+		if st, ok := x.X.Type().Underlying().(*types.Struct); ok {
+			if iv, ok := ff.P.fieldRange(st.Field(x.Field)); ok && within(iv, tr) {
+				return iv
+			}
+		}
 	case *ssa.UnOp:
 		if x.Op == token.MUL {
+			if fa, ok := x.X.(*ssa.FieldAddr); ok {
+				if st := derefStruct(fa.X.Type()); st != nil {
+					if iv, ok := ff.P.fieldRange(st.Field(fa.Field)); ok && within(iv, tr) {
+						return iv
+					}
+				}
+			}
 			if a, ok := x.X.(*ssa.Alloc); ok {
 				// single-store local
 				var st *ssa.Store
@@ -339,6 +365,9 @@ func (ff *FuncFacts) ArithSites() []ArithSite {
 					s.OK, s.Why = true, fmt.Sprintf("interval: operands %s %s, result %s fits %s", a, c, r, tr)
 				} else if x.Op == token.SUB && ff.knownLE(x.Y, x.X, b) {
 					s.OK, s.Why = true, "guard: subtrahend <= minuend on every path"
+				} else if why, bound, ok := ff.quotientBoundIdiom(x, b); ok {
+					s.OK, s.Why = true, why
+					ff.idiomBound[x] = bound
 				} else if why, ok := ff.geomLoopIdiom(x, tr); ok {
 					s.OK, s.Why = true, why
 				} else if x.Op == token.ADD && ff.ceilDivIdiom(x, b) {
@@ -575,4 +604,254 @@ func (ff *FuncFacts) geomLoopIdiom(x *ssa.BinOp, tr Interval) (string, bool) {
 		return "", false
 	}
 	return fmt.Sprintf("idiom: geometric accumulator, at most %s iterations (trip count %s), bound %s fits", n.Hi, ff.Term(cond.Y), bound), true
+}
+
+// quotientBoundIdiom: x * (p - 1) under the guard p <= ceil(N / x), where
+// ceil(N/x) is the φ of (N / x) and ((N / x) + 1).  Then x*(p-1) <= N - 1 < 2^64:
+// (p-1) <= ceil(N/x) - 1 <= (N-1)/x for N >= 1; for N == 0 the guard forces p == 0
+// and the site is unreachable when p >= 1 was established.
+func (ff *FuncFacts) quotientBoundIdiom(x *ssa.BinOp, at *ssa.BasicBlock) (string, Interval, bool) {
+	if x.Op != token.MUL {
+		return "", Interval{}, false
+	}
+	try := func(a, b ssa.Value) (string, Interval, bool) {
+		sub, ok := b.(*ssa.BinOp)
+		if !ok || sub.Op != token.SUB || !isConstInt(sub.Y, 1) {
+			return "", Interval{}, false
+		}
+		xa, p := ff.Term(a), ff.Term(sub.X)
+		for _, atom := range ff.Must(at) {
+			pre := p + " <= φ(("
+			if !strings.HasPrefix(atom.S, pre) {
+				continue
+			}
+			rest := atom.S[len(pre):]
+			// rest = N / xa)|((N / xa) + 1))   or the alternatives in the other order
+			i := strings.Index(rest, " / "+xa+")")
+			if i < 0 {
+				continue
+			}
+			N := rest[:i]
+			N = strings.TrimPrefix(N, "(")
+			want1 := p + " <= φ((" + N + " / " + xa + ")|((" + N + " / " + xa + ") + 1))"
+			want2 := p + " <= φ(((" + N + " / " + xa + ") + 1)|(" + N + " / " + xa + "))"
+			if atom.S != want1 && atom.S != want2 {
+				continue
+			}
+			// p >= 1 must be known
+			if iv := ff.rangeOf(sub.X, at, 0); iv.Lo.Sign() <= 0 {
+				continue
+			}
+			// bound: the value N itself
+			var nv ssa.Value
+			for _, blk := range ff.Fn.Blocks {
+				for _, in := range blk.Instrs {
+					if v, ok := in.(ssa.Value); ok && ff.Term(v) == N {
+						nv = v
+					}
+				}
+			}
+			for _, prm := range ff.Fn.Params {
+				if ff.Term(prm) == N {
+					nv = prm
+				}
+			}
+			hi, _ := typeRange(x.Type())
+			bound := hi
+			if nv != nil {
+				bound = ff.rangeOf(nv, at, 1)
+			}
+			return "idiom: x*(p-1) with p <= ceil(N/x) (" + atom.S + "), so the product is < N", Interval{big.NewInt(0), bound.Hi}, true
+		}
+		return "", Interval{}, false
+	}
+	if w, iv, ok := try(x.X, x.Y); ok {
+		return w, iv, ok
+	}
+	return try(x.Y, x.X)
+}
+
+// fieldRange: the union of the ranges of every value stored into the field anywhere
+// in the module, plus the zero value.  Only computed for registered fields.
+func (p *Program) fieldRange(f *types.Var) (Interval, bool) {
+	if p.fieldInv == nil {
+		return Interval{}, false
+	}
+	key := f
+	if iv, ok := p.fieldInvCache[key]; ok {
+		return iv, true
+	}
+	if !p.fieldInv[f] {
+		return Interval{}, false
+	}
+	if p.fieldInvBusy[f] {
+		return Interval{}, false
+	}
+	p.fieldInvBusy[f] = true
+	defer delete(p.fieldInvBusy, f)
+	res := Interval{big.NewInt(0), big.NewInt(0)}
+	tr, ok := typeRange(f.Type())
+	if !ok {
+		return Interval{}, false
+	}
+	for _, fn := range p.ModFns {
+		var ff *FuncFacts
+		for _, b := range fn.Blocks {
+			for _, in := range b.Instrs {
+				st, ok := in.(*ssa.Store)
+				if !ok {
+					continue
+				}
+				fa, ok := st.Addr.(*ssa.FieldAddr)
+				if !ok {
+					continue
+				}
+				sty := derefStruct(fa.X.Type())
+				if sty == nil || sty.Field(fa.Field) != f {
+					continue
+				}
+				if ff == nil {
+					ff = p.Facts(fn)
+				}
+				iv := ff.rangeOf(st.Val, b, 1)
+				res.Lo = minBig(res.Lo, iv.Lo)
+				res.Hi = maxBig(res.Hi, iv.Hi)
+			}
+		}
+	}
+	if !within(res, tr) {
+		res = tr
+	}
+	p.fieldInvCache[key] = res
+	return res, true
+}
+
+// RegisterFieldInvariant enables fieldRange for "pkg.Type.Field".
+func (p *Program) RegisterFieldInvariant(ref string) bool {
+	f := p.Field(ref)
+	if f == nil {
+		return false
+	}
+	if p.fieldInv == nil {
+		p.fieldInv = map[*types.Var]bool{}
+		p.fieldInvCache = map[*types.Var]Interval{}
+		p.fieldInvBusy = map[*types.Var]bool{}
+	}
+	p.fieldInv[f] = true
+	return true
+}
+
+// RegisterParamFromCallers: the range of parameter k of fnRef is the union of the
+// argument ranges at all its (CHA) call sites in the module.
+func (p *Program) RegisterParamFromCallers(fnRef string) bool {
+	fn := p.Fn(fnRef)
+	if fn == nil {
+		return false
+	}
+	if p.paramFrom == nil {
+		p.paramFrom = map[*ssa.Function]bool{}
+		p.paramCache = map[*ssa.Parameter]Interval{}
+	}
+	p.paramFrom[fn] = true
+	return true
+}
+
+func (p *Program) paramRange(prm *ssa.Parameter) (Interval, bool) {
+	fn := prm.Parent()
+	if p.paramFrom == nil || !p.paramFrom[fn] {
+		return Interval{}, false
+	}
+	if iv, ok := p.paramCache[prm]; ok {
+		return iv, true
+	}
+	tr, ok := typeRange(prm.Type())
+	if !ok {
+		return Interval{}, false
+	}
+	idx := -1
+	for i, q := range fn.Params {
+		if q == prm {
+			idx = i
+		}
+	}
+	node := p.CHA().Nodes[fn]
+	if node == nil || len(node.In) == 0 || idx < 0 {
+		return Interval{}, false
+	}
+	p.paramCache[prm] = tr // recursion guard
+	var res *Interval
+	for _, e := range node.In {
+		if e.Site == nil {
+			return tr, true
+		}
+		args := e.Site.Common().Args
+		if e.Site.Common().IsInvoke() {
+			return tr, true
+		}
+		if idx >= len(args) {
+			return tr, true
+		}
+		cf := p.Facts(e.Caller.Func)
+		var iv Interval
+		if wp, ok := args[idx].(*ssa.Parameter); ok && e.Caller.Func.Synthetic != "" {
+			// pointer-receiver / bound-method wrapper: look through to its callers
+			p.paramFrom[e.Caller.Func] = true
+			wiv, ok := p.paramRange(wp)
+			if !ok {
+				continue // the wrapper itself is never called
+			}
+			iv = wiv
+		} else {
+			iv = cf.rangeOf(args[idx], e.Site.Block(), 1)
+		}
+		if res == nil {
+			c := iv
+			res = &c
+		} else {
+			res.Lo = minBig(res.Lo, iv.Lo)
+			res.Hi = maxBig(res.Hi, iv.Hi)
+		}
+	}
+	out := tr
+	if res != nil && within(*res, tr) {
+		out = *res
+	}
+	p.paramCache[prm] = out
+	return out, true
+}
+
+// returnRange: union of the ranges of the (single) integer result over all returns.
+func (p *Program) returnRange(f *ssa.Function, depth int) (Interval, bool) {
+	if f.Signature.Results().Len() != 1 {
+		return Interval{}, false
+	}
+	if _, ok := typeRange(f.Signature.Results().At(0).Type()); !ok {
+		return Interval{}, false
+	}
+	if p.retBusy == nil {
+		p.retBusy = map[*ssa.Function]bool{}
+	}
+	if p.retBusy[f] {
+		return Interval{}, false
+	}
+	p.retBusy[f] = true
+	defer delete(p.retBusy, f)
+	ff := p.Facts(f)
+	var res *Interval
+	for _, b := range f.Blocks {
+		if ret, ok := b.Instrs[len(b.Instrs)-1].(*ssa.Return); ok && len(ret.Results) == 1 {
+			iv := ff.rangeOf(ret.Results[0], b, depth+2)
+			if res == nil {
+				c := iv
+				res = &c
+			} else {
+				res.Lo = minBig(res.Lo, iv.Lo)
+				res.Hi = maxBig(res.Hi, iv.Hi)
+			}
+		}
+	}
+	if res == nil {
+		return Interval{}, false
+	}
+	return *res, true
 }
